@@ -817,6 +817,10 @@ class Interp(Engine):
         if isinstance(v, EmptyMap):
             yield st, BuiltinMethod(v, name)
             return
+        if isinstance(v, tuple) and v and v[0] in ('logger', 'opaque'):
+            # logging.Logger (A-LOG) and other effect-free collaborators: any method, no effect, returns None
+            yield st, BuiltinMethod(v, name)
+            return
         if isinstance(v, (int, bytes, str, list, tuple, dict)) and not isinstance(v, bool) or v is None:
             if v is None:
                 yield st, Raised(ExcVal(AttributeError))
